@@ -24,7 +24,8 @@ static Agc::Result<T> _process(AgcImpl& agc, const base_array<T>& x) {
     base_array<T> out(nx);
     arr_real gain(nx);
     for (int i = 0; i < nx; ++i) {
-        const auto input_power = agc.maflt(abs2(x[i])) + dsplib::eps();
+        //the recurrent sum of the moving average can end slightly below zero once the signal falls silent
+        const auto input_power = max(agc.maflt(abs2(x[i])), real_t(0)) + dsplib::eps();
         const real_t err = agc.target - (std::log(input_power) + (2 * agc.gain));
         if (err > 1) {
             agc.gain += agc.trise * err;
